@@ -153,9 +153,18 @@ def rule_delegation(ctx, m, modules, floor=None):
             # crosses two options; this also covers callees that take the options as **kwargs
             allp = set(f.args + f.kwonly)
             for s, call in calls_in(f.body):
-                if not any(k is not None and k in allp for k, _ in call[3]):
+                # keywords written at the call, and the entries of a dictionary literal handed over as **d (d a local with that one definition)
+                kws = [(k, v) for k, v in call[3] if k is not None]
+                for k, v in call[3]:
+                    if k is None and v[0] == 'dict':
+                        kws += [(k2[1], v2) for k2, v2 in v[1] if k2 is not None and k2[0] == 'str']
+                    if k is None and v[0] == 'var' and v[1] not in allp:
+                        defs_ = [t for t in walk_stmts(f.body) if t.k == 'assign' and t.target == v]
+                        if len(defs_) == 1 and defs_[0].value[0] == 'dict':
+                            kws += [(k2[1], v2) for k2, v2 in defs_[0].value[1] if k2 is not None and k2[0] == 'str']
+                if not any(k in allp for k, _ in kws):
                     continue
-                crossed = [(k, v[1]) for k, v in call[3] if k is not None and v[0] == 'var' and v[1] != k and v[1] in allp and k in allp]
+                crossed = [(k, v[1]) for k, v in kws if v[0] == 'var' and v[1] != k and v[1] in allp and k in allp]
                 n += 1
                 ctx.check(not crossed, 'R-FWD', mod.path, q, 'crossed keywords at %s' % dotted(call[1]),
                           'the call passes %s: the option named %s receives the value the caller gave for %s' %
